@@ -25,7 +25,11 @@ PROP = {
              "nobody requested is accepted by the model only after 10 ticks without any packet); outages (server resets the "
              "connection and turns every new one away for 2 s / 11.5 s counted from the failed send that starts reconnect(), "
              "then is back: re-established and IsOK within 8 s, later calls succeed, every attempt the server turned away is "
-             "a 'dialfail event of the compared history); go/ast check of the statement order in Request / "
+             "a 'dialfail event of the compared history); pinger-survives-reconnect (unmodified connection, idle, reset by the "
+             "server - FIN variant in the thorough tier - so that only the 3 s pinger can notice; after the client has "
+             "re-established it: >= 2 pings in the next 11.5 s, a call issued 8.5 s and answered 11.5 s after the reconnect "
+             "gets its answer, exactly one further transport connection; the history carries every ping the server received "
+             "and the model lets at most 5 ticks pass on a healthy pinged connection without one); go/ast check of the statement order in Request / "
              "registerCallback / processQueryAnswer. A class is (kind, connections, callers bucket, waves/drop or race shape "
              "or history shape, outcome)."),
     'explanation': ("coq/Properties/C12.v: for every trace of the labelled transition system of client.go + the status machine of "
@@ -35,11 +39,15 @@ PROP = {
                     "calls only and is empty when idle; at most one reconnect loop per connection; the silence rule "
                     "fires only after a full period without a packet of any kind (a connection fed at least once per period "
                     "is never dropped by it); after any number of failed attempts and any waiting time the reconnect loop can "
-                    "still succeed (attempts are independent; a single deadline for the whole loop is refuted); a new call over an established "
+                    "still succeed (attempts are independent; a single deadline for the whole loop is refuted); the pinger of a connection "
+                    "is alive and enabled in every reachable state, across failed pings and reconnects, and time cannot pass its "
+                    "deadline without a ping (a pinger that returns after a failed ping is refuted); a new call over an established "
                     "connection completes. The extracted model predicts or accepts every generated history of the real client."),
     'assumptions': ["query ids of concurrently in-flight calls are distinct (256-bit math/rand ids); visible premise of C12_no_foreign_answer",
                     "data races, goroutine leaks and wall-clock bounds (deadline, reconnect latency) are runtime facts not exhibited by the "
                     "model; observed as support: -race run clean, goroutine count stable, reconnect < 5 s / < 15 s (ping path)",
+                    "the ping period is modelled as an urgency bound of 5 one-second ticks (3 s sleep plus scheduling slack); connections "
+                    "built by the harness' dial hook have no pinger and start from init_state_without_pinger",
                     "liveness of reconnection is an enabled path, not a fairness theorem (C12_reconnect_path_partial)",
                     "connections with an auth key are not modelled; mutex critical sections are atomic steps (source order checked by go/ast)"],
 }
